@@ -70,7 +70,7 @@ def stream_processes(ctx):
     results = []
     procs = []
     for k in range(runs):
-        env = dict(os.environ, PYTHONHASHSEED=str([0, 1, 4242, 99, 7, 31337, 2, 3, 5, 8, 13, 21][k]), PYTHONPATH="/repo:" + str(VERIF / "harness"))
+        env = dict(os.environ, PYTHONHASHSEED=str([0, 1, 4242, 99, 7, 31337, 2, 3, 5, 8, 13, 21][k]), PYTHONPATH=str(REPO) + ":" + str(VERIF / "harness"))
         procs.append(subprocess.Popen(["/venv/bin/python", str(VERIF / "harness" / "c05_worker.py"), str(seed), str(1000 * k + 17)], env=env,
                                       stdout=subprocess.PIPE, stderr=subprocess.PIPE, text=True))
     for k, p in enumerate(procs):
